@@ -44,6 +44,9 @@ func c13Oracle(sp *Spec, x *X, res *mcrt.Result) (string, string) {
 		case c.Ret == 0:
 			return "write-blocked", fmt.Sprintf("Progress.Write(%q) never returned", text)
 		case c.Res == fmt.Sprintf("%d,nil", len(text)):
+			if x.FaultStep > 0 && c.Inv <= x.FaultStep {
+				continue // accepted before the render error: outside the property (section 11)
+			}
 			if late {
 				return "late-write-accepted", fmt.Sprintf("Write(%q) began after Wait returned and reported success", text)
 			}
@@ -144,6 +147,20 @@ func c13Programs(tier string) []*Spec {
 			sp.Main = []Op{{K: "add", B: 0}}
 			sp.Clients = [][]Op{completeOps(0, 2), {{K: "writebuf", S: "scratch-alpha-long\n"}, {K: "writebuf", S: "scratch-bravo\n"}, {K: "writebuf", S: "s-charlie\n"}}}
 		}
+		sp.Late = []Op{{K: "write", S: "too-late\n"}}
+		out = append(out, sp)
+	}
+	// a render error ends the container: text written after it must not be accepted and then dropped
+	for _, rf := range []string{"auto", "manual"} {
+		sp := &Spec{Name: "c13-after-render-error", Refresh: rf, Q: -1}
+		sp.Bars = []BarSpec{{Total: 5, FillErrAt: 2}}
+		sp.Main = []Op{{K: "add", B: 0}}
+		w := []Op{{K: "write", S: "err-alpha\n"}, {K: "write", S: "err-bravo\n"}, {K: "write", S: "err-charlie\n"}, {K: "write", S: "err-delta\n"}}
+		c := []Op{{K: "incr", B: 0, N: 1}}
+		if rf == "manual" {
+			c = append(c, Op{K: "refresh"}, Op{K: "refresh"}, Op{K: "refresh"})
+		}
+		sp.Clients = [][]Op{c, w}
 		sp.Late = []Op{{K: "write", S: "too-late\n"}}
 		out = append(out, sp)
 	}
